@@ -218,6 +218,9 @@ structure Tri where
 def triOf (v1 v2 v3 : V3) : Tri :=
   ⟨V3.dot v1 v2, V3.dot v2 v3, V3.dot v3 v1, V3.dot v1 (V3.cross v2 v3)⟩
 
+/-- the invariants of the reversed triple `(−v1, −v2, −v3)`: same dot products, opposite triple product -/
+def flipT (tr : Tri) : Tri := ⟨tr.d12, tr.d23, tr.d31, -tr.t⟩
+
 /-- `util.bergluescher_angle`: zero when the triple product vanishes, else the leaf
 `Ω = 2·Im log((1+d12+d23+d31 + i·t)/ρ)/(4π)` (a parameter of the model) -/
 def blAngle (Om : Tri → Rat) (tr : Tri) : Rat := if tr.t = 0 then 0 else Om tr
@@ -618,5 +621,10 @@ def linConv (T : NDA (List Rat)) (f : Fld) (a : Nat) (q : List Nat) : Rat :=
       (T.get [q.getD 0 0 + (f.mesh.nAt 0 - 1) - r0, q.getD 1 0 + (f.mesh.nAt 1 - 1) - r1,
               q.getD 2 0 + (f.mesh.nAt 2 - 1) - r2]).getD (symIdx a b) 0 *
         (f.data.get [r0, r1, r2]).getD b 0
+
+/-- a field on mesh `m` uniformly magnetised with magnitude `M` along component `a` -/
+def uniF (m : Mesh) (M : Rat) (a : Nat) : Fld :=
+  { mesh := m, nvdim := 3, data := NDA.const m.n (tab 3 fun b => if b = a then M else 0),
+    valid := NDA.const m.n true, vdims := some ["x", "y", "z"], vmap := [], unit := none }
 
 end DFV.C19
